@@ -24,7 +24,7 @@ def main(prop: str, tier: str) -> int:
     rep.cov['transitions'] = rep.cov.get('transitions', 0) + cp.get('transitions', 0)
     rep.cov['traces_validated_against_impl'] = rep.cov.get('traces_validated_against_impl', 0) + cp.get('behaviours', 0)
     for modname, fn in (('checks.tokedit', 'refusal_part'), ('checks.numexpr', 'refusal_part'), ('checks.slots', 'refusal_part'),
-                       ('checks.c17', 'refusal_part')):
+                       ('checks.c17', 'refusal_part'), ('checks.txnstrings', 'refusal_part')):
         try:
             mod = __import__(modname, fromlist=[fn])
             f = getattr(mod, fn, None)
